@@ -220,10 +220,13 @@ Definition obs_eqb (s : st) (o : obs) : bool :=
   timer_eqb (tm s) (timer_of o) && (delay s =? o_delay o) &&
   Nat.eqb (dials_live s) (o_live o) && Nat.eqb (dials_dead s) (o_dead o).
 
-Fixpoint all_obs (ss : list st) (os : list obs) : bool :=
-  match ss, os with
-  | [], [] => true
-  | s :: r, o :: q => obs_eqb s o && all_obs r q
+(** [fl] = which positions of the trace were observed on the implementation (the three steps of a
+    returning dial are observed only at the end) *)
+Fixpoint all_obs (ss : list st) (fl : list bool) (os : list obs) : bool :=
+  match ss, fl with
+  | [], [] => match os with [] => true | _ => false end
+  | s :: r, true :: f => match os with o :: q => obs_eqb s o && all_obs r f q | [] => false end
+  | s :: r, false :: f => all_obs r f os
   | _, _ => false
   end.
 
@@ -233,24 +236,51 @@ Definition observed_state (s : st) (o : obs) : st :=
   {| tm := timer_of o; cancelled := cancelled s; registered := registered s; connected := connected s;
      delay := o_delay o; pstart := pstart s; pstop := pstop s; recon := recon s;
      dials_live := o_live o; dials_dead := o_dead o |}.
-Fixpoint observed_trace (ss : list st) (os : list obs) : list st :=
-  match ss, os with
-  | s :: r, o :: q => observed_state s o :: observed_trace r q
+Fixpoint observed_trace (ss : list st) (fl : list bool) (os : list obs) : list st :=
+  match ss, fl with
+  | s :: r, true :: f => match os with o :: q => observed_state s o :: observed_trace r f q | [] => [] end
+  | s :: r, false :: f => observed_trace r f os
   | _, _ => []
   end.
 
-Record case := { c_conn0 : bool; c_events : list ev; c_obs : list obs }.
+(** bookkeeping-only run: registered / connected / pending counters / reconnect phase evolve from the
+    event list alone, exactly as the harness tracks them (every listed event did happen on the
+    implementation); timer, delay and dial counters are not tracked here *)
+Definition bk_step (s : st) (e : ev) : st :=
+  let mk reg can conn ps pt rc :=
+    {| tm := tm s; cancelled := can; registered := reg; connected := conn; delay := delay s;
+       pstart := ps; pstop := pt; recon := rc; dials_live := dials_live s; dials_dead := dials_dead s |} in
+  match e with
+  | EConn => mk (registered s) (cancelled s) true (pstart s) (if registered s then S (pstop s) else pstop s) (recon s)
+  | EDisc => mk (registered s) (cancelled s) false (if registered s then S (pstart s) else pstart s) (pstop s) (recon s)
+  | ERunStart _ => mk (registered s) (cancelled s) (connected s) (Nat.pred (pstart s)) (pstop s) (recon s)
+  | ERunStop => mk (registered s) (cancelled s) (connected s) (pstart s) (Nat.pred (pstop s)) (recon s)
+  | EFire => mk (registered s) (cancelled s) (connected s) (pstart s) (pstop s) (Some RDial)
+  | EDialRet ok =>
+      let ok' := ok && negb (cancelled s) in
+      mk (registered s) (cancelled s) (if ok' then true else connected s) (pstart s)
+         (if ok' && registered s then S (pstop s) else pstop s) (Some (RTail ok'))
+  | ETail1 _ => mk (registered s) (cancelled s) (connected s) (pstart s) (pstop s) (Some RTail2)
+  | ETail2 => mk (registered s) (cancelled s) (connected s) (pstart s) (pstop s) None
+  | EStop => mk false true (connected s) (pstart s) (pstop s) (recon s)
+  end.
+Fixpoint bk_run (s : st) (es : list ev) : list st :=
+  match es with [] => [] | e :: r => let s' := bk_step s e in s' :: bk_run s' r end.
+
+Record case := { c_conn0 : bool; c_events : list (ev * bool); c_obs : list obs }.
 
 Definition check_case (c : case) : verdict :=
   let s0 := init (c_conn0 c) in
-  let tr fl := run fl s0 (c_events c) in
+  let evs := map fst (c_events c) in
+  let fl := map snd (c_events c) in
+  let tr f := run f s0 evs in
   let fixed := tr fixed_flags in
   let old1 := tr {| f_start_after_stop := true; f_dead_timer := false |} in
   let old2 := tr {| f_start_after_stop := false; f_dead_timer := true |} in
   let old12 := tr {| f_start_after_stop := true; f_dead_timer := true |} in
-  let m fl_tr := all_obs fl_tr (c_obs c) in
-  let otr := observed_trace fixed (c_obs c) in
-  if negb (Nat.eqb (length (c_obs c)) (length (c_events c))) then VModelMismatch
+  let m t := all_obs t fl (c_obs c) in
+  let otr := observed_trace (bk_run s0 evs) fl (c_obs c) in
+  if negb (Nat.eqb (length (c_obs c)) (length (filter (fun b => b) fl))) then VModelMismatch
   else if spec_trace otr then
     (if m fixed || m old1 || m old2 || m old12 then VOk else VModelMismatch)
   else
